@@ -226,6 +226,30 @@ func (p *Program) derivedState() *derivedInfo {
 						follows = true
 					}
 				}
+				// ... or calls, on the same paths, a module function that writes the copy on all of its paths; a call
+				// deferred before the change runs after it on every exit
+				if !follows {
+					eachInstr(m.fn, func(i ssa.Instruction) {
+						cc := callCommon(i)
+						if cc == nil || follows {
+							return
+						}
+						g := cc.StaticCallee()
+						if g == nil || !p.inModule(g) || g.Blocks == nil || !alwaysWrites(g, writes[d], 0) {
+							return
+						}
+						switch i.(type) {
+						case *ssa.Defer:
+							if instrDominates(i, m.at) {
+								follows = true
+							}
+						case *ssa.Call:
+							if alwaysTogether(m.at, i) {
+								follows = true
+							}
+						}
+					})
+				}
 				// a version stamp: the mutator writes another field on the same paths and every reader of the copy compares it
 				if !follows {
 					for v, vs := range writes {
@@ -278,6 +302,43 @@ func (p *Program) derivedState() *derivedInfo {
 		}
 	}
 	return di
+}
+
+// alwaysWrites: every path through g executes one of the writes (directly, or through a module callee: one level).
+func alwaysWrites(g *ssa.Function, ws []locWrite, depth int) bool {
+	var stops []ssa.Instruction
+	for _, w := range ws {
+		if w.fn == g {
+			stops = append(stops, w.at)
+		}
+	}
+	if depth < 1 {
+		eachInstr(g, func(i ssa.Instruction) {
+			if call, ok := i.(*ssa.Call); ok {
+				if h := call.Call.StaticCallee(); h != nil && h != g && h.Blocks != nil && alwaysWrites(h, ws, depth+1) {
+					stops = append(stops, i)
+				}
+			}
+		})
+	}
+	if len(stops) == 0 || len(g.Blocks) == 0 || len(g.Blocks[0].Instrs) == 0 {
+		return false
+	}
+	first := g.Blocks[0].Instrs[0]
+	for _, st := range stops {
+		if st == first {
+			return true
+		}
+	}
+	for _, r := range returnsOf(g) {
+		if r.Block().Comment == "recover" {
+			continue
+		}
+		if canReachAvoiding(first, r, stops) {
+			return false
+		}
+	}
+	return true
 }
 
 func ruleDerivedRegistrationState(c *Ctx) {
@@ -424,4 +485,83 @@ func (p *Program) sharedOwner(f *types.Var) bool {
 		}
 	}
 	return f.Pkg() != nil && f.Pkg().Path() == modulePath
+}
+
+// pureMemoUpdate: m[k] = v where v is computed from k alone by deterministic library functions (a compiled regular
+// expression remembered under its source text, a parsed value under its spelling). What such a table holds for a key
+// never changes and does not depend on which request filled it: it is not a trace of a request.
+var pureLibraryPrefixes = []string{"regexp.Compile", "regexp.MustCompile", "regexp.QuoteMeta", "strings.", "strconv.", "path.", "mime.ParseMediaType", "net/url.Parse", "net/url.PathEscape", "net/url.QueryEscape", "unicode.", "unicode/utf8.", "bytes.", "sort.SearchStrings", "net/textproto.CanonicalMIMEHeaderKey", "net/http.CanonicalHeaderKey"}
+
+func (p *Program) pureMemoUpdate(mu *ssa.MapUpdate) bool {
+	key := strip(mu.Key)
+	seen := map[ssa.Value]bool{}
+	ok := true
+	var visit func(x ssa.Value, depth int)
+	visit = func(x ssa.Value, depth int) {
+		if x == nil || !ok {
+			return
+		}
+		x = strip(x)
+		if seen[x] {
+			return
+		}
+		seen[x] = true
+		if x == key || p.sameVar(x, key) {
+			return
+		}
+		if depth > 30 {
+			ok = false
+			return
+		}
+		switch y := x.(type) {
+		case *ssa.Const:
+		case *ssa.Phi:
+			for _, e := range y.Edges {
+				visit(e, depth+1)
+			}
+		case *ssa.Extract:
+			visit(y.Tuple, depth+1)
+		case *ssa.Call:
+			n := calleeName(&y.Call)
+			pure := false
+			for _, pre := range pureLibraryPrefixes {
+				if strings.HasPrefix(n, pre) {
+					pure = true
+				}
+			}
+			if !pure {
+				ok = false
+				return
+			}
+			for _, a := range y.Call.Args {
+				visit(a, depth+1)
+			}
+		case *ssa.UnOp:
+			if y.Op == token.MUL {
+				a, isA := y.X.(*ssa.Alloc)
+				if !isA {
+					ok = false
+					return
+				}
+				for _, st := range p.cellStores(a) {
+					visit(st.Val, depth+1)
+				}
+				return
+			}
+			visit(y.X, depth+1)
+		case *ssa.BinOp:
+			visit(y.X, depth+1)
+			visit(y.Y, depth+1)
+		case *ssa.Convert:
+			visit(y.X, depth+1)
+		case *ssa.Slice:
+			visit(y.X, depth+1)
+			visit(y.Low, depth+1)
+			visit(y.High, depth+1)
+		default:
+			ok = false
+		}
+	}
+	visit(mu.Value, 0)
+	return ok
 }
